@@ -4,6 +4,7 @@ go 1.16
 
 require (
 	github.com/ipfs/go-cid v0.0.7
+	github.com/ipfs/go-ipfs-files v0.0.8
 	github.com/ipfs/go-ipld-cbor v0.0.5
 	github.com/ipfs/ipfs-cluster v0.0.0
 	github.com/libp2p/go-libp2p-core v0.8.5
